@@ -28,7 +28,10 @@ FnsCore == <<
   Path("$", <<Nm(kl), Wild, Nm(ka)>>, <<AF(Fn_g1)>>),
   L(And(Exist(Px), Cmp("==", Pa, Px))),
   Path("$", <<Nm(kl), Un(<<Sl(-2, FALSE, 2, FALSE, 1, FALSE)>>)>>, <<>>),     \* [-2:2] on lists of different lengths
-  Path("$", <<Nm(kl), Nm(ka)>>, <<>>) >>
+  Path("$", <<Nm(kl), Nm(ka)>>, <<>>),
+  L(And(NotP(Pa), Exist(Cur(<<Nm(kb)>>)))),        \* whole-true left operand, non-matching right one, on ONE member
+  L(Cmp(">", Pa, Lit(N1))),                        \* on objects of 3, then 2, then 1 members
+  Path("$", <<Nm(kl), Un(<<Sl(0, TRUE, 0, TRUE, 1, TRUE)>>)>>, <<>>) >>
 FnsMore == <<
   L(Exist(Px)), L(NotP(Px)), L(Cmp("<=", Px, Pa)), L(Cmp("==", Lit(N1), Lit(N2))), L(Cmp("==", Px, Py)),
   Path("$", <<Nm(kl), Un(<<Idx(0), Idx(1)>>)>>, <<>>), Path("$", <<Nm(kx)>>, <<>>),
@@ -48,7 +51,10 @@ Docs == <<
   D(Arr(<<Oa(Sa), Ob(N1)>>), <<Sa>>, <<N2>>),
   Sa,
   D(Arr(<<Oa(N1), Oa(N2), Oa(N3)>>), <<N3>>, <<>>),
-  Obj(<<KV(kl, Sa)>>), Obj(<<KV(kl, N1)>>) >>
+  Obj(<<KV(kl, Sa)>>), Obj(<<KV(kl, N1)>>),
+  D(Arr(<<Obj(<<KV(kc, N1)>>)>>), <<>>, <<>>),
+  D(Obj(<<KV(ka, Oa(N3)), KV(kb, Oa(N2)), KV(kc, Oa(N1))>>), <<N1>>, <<>>),
+  D(Obj(<<KV(kb, Oa(N2))>>), <<N1>>, <<>>) >>
 
 OpSet == [k : {"call"}, d : 1..Len(Docs)] \cup {[k |-> "scribble", d |-> 0], [k |-> "unrelated", d |-> 0]}
 
